@@ -125,6 +125,8 @@ class _CGMYLevyMeasure(LevyMeasure):
         return 0
 
     def integrate(self, a: float, b: float) -> float:
+        if a == b:
+            return 0.0
         if a < b and a <= 0 <= b and self.parameters.y >= 0:
             return np.inf  # infinite activity: the mass of any neighbourhood of zero is infinite
 
@@ -153,6 +155,8 @@ class _CGMYLevyMeasure(LevyMeasure):
             self.parameters.m,
             self.parameters.y,
         )
+        if a == b:
+            return 0.0
 
         if a >= 0:
             if b == np.inf:
